@@ -160,6 +160,9 @@ class C07(Prop):
         v = cls(s_used)
         snap_schema = impl.cj(s_used)
         xs = list(case["instances"]) + (GI.probes(s, case["probes"]) if case.get("probes") else [])
+        # values of one Python class that a draft may type differently, and Python-equal values of different JSON
+        # types, one after the other on the same validator object
+        xs += [1.0, 1.5, 2.0, 2.5, -0.0, [1.0], [1.5], 1, True, 0, False, "1", {"a": 1.0}, {"a": 1.5}]
         res.labels.append("plain")
         for x in xs:
             res.evals += 1
